@@ -1126,13 +1126,10 @@ def evaluate__xml_to_json(self: XPathFunction, context: ta.ContextType = None) \
                 raise self.error('FOJS0006', f"{child} has an invalid attribute {name!r}")
 
         def check_escapes(s: str) -> None:
-            if re.search(r'(?<!\\)\\(?![urtnfb/"\\])', s):
-                raise self.error('FOJS0007', f"invalid escape sequence in {s!r}")
-
-            hex_digits = '0123456789abcdefABCDEF'
-            for chunk in s.split('\\u')[1:]:
-                if len(chunk) < 4 or any(x not in hex_digits for x in chunk[:4]):
-                    raise self.error('FOJS0007', f"invalid unicode escape in {s!r}")
+            # left to right: an escaped backslash consumes its partner
+            for match in re.finditer(r'\\(?:(u[0-9a-fA-F]{4}|[rtnfb/"\\])|)', s):
+                if match.group(1) is None:
+                    raise self.error('FOJS0007', f"invalid escape sequence in {s!r}")
 
         for child in elements:
             if callable(child.tag):
